@@ -10,7 +10,7 @@
 Each worker owns a scratch worktree under /tmp/msw/wK (removed by `mutsweep.py clean`)."""
 import json, os, subprocess, sys, threading, queue, time, collections
 
-ROOT = '/tmp/msw'
+ROOT = os.environ.get('MSW_ROOT', '/tmp/msw')
 ENV = dict(os.environ, GOFLAGS='-mod=mod', GOPROXY='off', GOSUMDB='off', GOTOOLCHAIN='local')
 lock = threading.Lock()
 
@@ -55,7 +55,9 @@ def load_muts():
 # Keys that fire on every mutant of the pinned (older) base commit because the checker learnt the rule after that
 # commit's defect was found (F13, F15, F16): they do not count as kills of the mutant.
 BASE_NOISE = ('C03.R3:donor-was-managed', 'C04.R4:hup-offers-input', 'C06.R4:hup-offers-input',
-              'C06.R4:drain-observed-under-the-lock', 'C04.R4:drain-observed-under-the-lock')
+              'C06.R4:drain-observed-under-the-lock', 'C04.R4:drain-observed-under-the-lock',
+              'C15.R5:failed-growth-closes-new-pollers', 'C13.R1:shutdown-published-before-sweep',
+              'C17.R4:shard-index-never-negative')
 
 def load_results(name):
     res = {}
@@ -134,7 +136,7 @@ def main():
                 code, out = sh([os.environ.get('NPLINT', '/verif/bin/nplint'), '-prop', 'all', '-tier', 'quick', '-repo', wt, '-verif', f'{wt}/.verif'], timeout=300)
                 props = sorted(set(l.split('property=')[1].split()[0] for l in out.splitlines() if l.startswith('VIOLATION property=')))
                 broken = sorted(set(l.split('property=')[1].split()[0] for l in out.splitlines() if l.startswith('BROKEN: property=')))
-                keys = [l.split()[1] for l in out.splitlines() if l.startswith('VIOLATED ') and not l.startswith('VIOLATED C')][:6]
+                keys = [l.split()[1] for l in out.splitlines() if l.startswith('VIOLATED ') and not l.startswith('VIOLATED C')][:14]
                 r.update(status='killed' if props else ('broken' if broken else 'survived'), props=props, broken=broken, keys=keys)
             restore(wt, m, orig)
             return r
